@@ -31,12 +31,18 @@ Proofs/RdNameP.vos Proofs/RdNameP.vok Proofs/RdNameP.required_vos: Proofs/RdName
 Proofs/RdataFormatSP.vo Proofs/RdataFormatSP.glob Proofs/RdataFormatSP.v.beautified Proofs/RdataFormatSP.required_vo: Proofs/RdataFormatSP.v Base/ListX.vo Spec/NameWireS.vo Proofs/NameWireP.vo Proofs/NameWireSP.vo Model/RdataM.vo Spec/RdataFormatS.vo Proofs/RdNameP.vo
 Proofs/RdataFormatSP.vio: Proofs/RdataFormatSP.v Base/ListX.vio Spec/NameWireS.vio Proofs/NameWireP.vio Proofs/NameWireSP.vio Model/RdataM.vio Spec/RdataFormatS.vio Proofs/RdNameP.vio
 Proofs/RdataFormatSP.vos Proofs/RdataFormatSP.vok Proofs/RdataFormatSP.required_vos: Proofs/RdataFormatSP.v Base/ListX.vos Spec/NameWireS.vos Proofs/NameWireP.vos Proofs/NameWireSP.vos Model/RdataM.vos Spec/RdataFormatS.vos Proofs/RdNameP.vos
+Proofs/RdataRP.vo Proofs/RdataRP.glob Proofs/RdataRP.v.beautified Proofs/RdataRP.required_vo: Proofs/RdataRP.v Base/ListX.vo Spec/NameWireS.vo Spec/NameRepr.vo Proofs/NameWireP.vo Proofs/NameWireSP.vo Model/RdataM.vo Spec/RdataFormatS.vo Proofs/RdNameP.vo Proofs/RdataFormatSP.vo Proofs/RdataVP.vo
+Proofs/RdataRP.vio: Proofs/RdataRP.v Base/ListX.vio Spec/NameWireS.vio Spec/NameRepr.vio Proofs/NameWireP.vio Proofs/NameWireSP.vio Model/RdataM.vio Spec/RdataFormatS.vio Proofs/RdNameP.vio Proofs/RdataFormatSP.vio Proofs/RdataVP.vio
+Proofs/RdataRP.vos Proofs/RdataRP.vok Proofs/RdataRP.required_vos: Proofs/RdataRP.v Base/ListX.vos Spec/NameWireS.vos Spec/NameRepr.vos Proofs/NameWireP.vos Proofs/NameWireSP.vos Model/RdataM.vos Spec/RdataFormatS.vos Proofs/RdNameP.vos Proofs/RdataFormatSP.vos Proofs/RdataVP.vos
+Proofs/RdataVP.vo Proofs/RdataVP.glob Proofs/RdataVP.v.beautified Proofs/RdataVP.required_vo: Proofs/RdataVP.v Base/ListX.vo Spec/NameWireS.vo Proofs/NameWireP.vo Proofs/NameWireSP.vo Model/RdataM.vo Spec/RdataFormatS.vo Proofs/RdNameP.vo Proofs/RdataFormatSP.vo
+Proofs/RdataVP.vio: Proofs/RdataVP.v Base/ListX.vio Spec/NameWireS.vio Proofs/NameWireP.vio Proofs/NameWireSP.vio Model/RdataM.vio Spec/RdataFormatS.vio Proofs/RdNameP.vio Proofs/RdataFormatSP.vio
+Proofs/RdataVP.vos Proofs/RdataVP.vok Proofs/RdataVP.required_vos: Proofs/RdataVP.v Base/ListX.vos Spec/NameWireS.vos Proofs/NameWireP.vos Proofs/NameWireSP.vos Model/RdataM.vos Spec/RdataFormatS.vos Proofs/RdNameP.vos Proofs/RdataFormatSP.vos
 Props/C14.vo Props/C14.glob Props/C14.v.beautified Props/C14.required_vo: Props/C14.v Base/ListX.vo Model/NameWire.vo Spec/NameWireS.vo Spec/NameRepr.vo Proofs/NameWireP.vo Proofs/NameWireSP.vo
 Props/C14.vio: Props/C14.v Base/ListX.vio Model/NameWire.vio Spec/NameWireS.vio Spec/NameRepr.vio Proofs/NameWireP.vio Proofs/NameWireSP.vio
 Props/C14.vos Props/C14.vok Props/C14.required_vos: Props/C14.v Base/ListX.vos Model/NameWire.vos Spec/NameWireS.vos Spec/NameRepr.vos Proofs/NameWireP.vos Proofs/NameWireSP.vos
-Props/C18.vo Props/C18.glob Props/C18.v.beautified Props/C18.required_vo: Props/C18.v Base/ListX.vo Model/NameWire.vo Model/RdataM.vo Spec/RdataFormatS.vo
-Props/C18.vio: Props/C18.v Base/ListX.vio Model/NameWire.vio Model/RdataM.vio Spec/RdataFormatS.vio
-Props/C18.vos Props/C18.vok Props/C18.required_vos: Props/C18.v Base/ListX.vos Model/NameWire.vos Model/RdataM.vos Spec/RdataFormatS.vos
+Props/C18.vo Props/C18.glob Props/C18.v.beautified Props/C18.required_vo: Props/C18.v Base/ListX.vo Model/NameWire.vo Model/RdataM.vo Spec/NameWireS.vo Spec/RdataFormatS.vo Proofs/RdNameP.vo Proofs/RdataFormatSP.vo Proofs/RdataVP.vo Proofs/RdataRP.vo
+Props/C18.vio: Props/C18.v Base/ListX.vio Model/NameWire.vio Model/RdataM.vio Spec/NameWireS.vio Spec/RdataFormatS.vio Proofs/RdNameP.vio Proofs/RdataFormatSP.vio Proofs/RdataVP.vio Proofs/RdataRP.vio
+Props/C18.vos Props/C18.vok Props/C18.required_vos: Props/C18.v Base/ListX.vos Model/NameWire.vos Model/RdataM.vos Spec/NameWireS.vos Spec/RdataFormatS.vos Proofs/RdNameP.vos Proofs/RdataFormatSP.vos Proofs/RdataVP.vos Proofs/RdataRP.vos
 Spec/NameRepr.vo Spec/NameRepr.glob Spec/NameRepr.v.beautified Spec/NameRepr.required_vo: Spec/NameRepr.v Model/NameWire.vo Spec/NameWireS.vo
 Spec/NameRepr.vio: Spec/NameRepr.v Model/NameWire.vio Spec/NameWireS.vio
 Spec/NameRepr.vos Spec/NameRepr.vok Spec/NameRepr.required_vos: Spec/NameRepr.v Model/NameWire.vos Spec/NameWireS.vos
